@@ -63,7 +63,15 @@ Definition sem_op (o : Engine.op) (root : snode) : snode :=
 Definition sem_tx (ops : list Engine.op) (root : snode) : snode := fold_left (fun r o => sem_op o r) ops root.
 
 (* ---- the tier-B target: for a well-formed state (predicate supplied by the proof development), a transaction that the
-   engine completes leaves a well-formed state whose meaning is the functional semantics of its operations ---- *)
-Definition run_tx_refines_stmt (db_wf : db -> Prop) : Prop :=
+   engine completes leaves a well-formed state whose meaning is the functional semantics of its operations.
+   Side condition on the operations (predicate `op_ok`, supplied by the proof development: EnginePathFacts.op_ok = the path
+   has fewer than 8 components and a deleted bucket's tree has fewer than 100000 pages): the model's walks are fuelled and
+   `soft` turns an exhausted fuel into "no effect", so WITHOUT the side condition the statement is false of the model
+   (EnginePathFacts.run_tx_refines_stmt_false: a put below 8 nested buckets). The histories the model is compared with the
+   library on never nest deeper than 3. ---- *)
+Definition run_tx_refines_unrestricted_stmt (db_wf : db -> Prop) : Prop :=
   forall st ops ord st', db_wf st -> run_tx st ops ord = Engine.Ok st' ->
+    db_wf st' /\ abs_db st' = sem_tx ops (abs_db st).
+Definition run_tx_refines_stmt (db_wf : db -> Prop) (op_ok : disk -> Engine.op -> Prop) : Prop :=
+  forall st ops ord st', db_wf st -> Forall (op_ok (d_disk st)) ops -> run_tx st ops ord = Engine.Ok st' ->
     db_wf st' /\ abs_db st' = sem_tx ops (abs_db st).
